@@ -50,6 +50,9 @@ SCN = {"root": "Base", "classes": {
     # a parent that shares some attributes by design (do_not_copy) and a decorated subclass that does not ask for that: the subclass copies
     "DncBase": S.cls([dict(a, dnc=a["name"] in ("e", "g", "m")) for a in BASE_ATTRS]),
     "SubOfDnc": S.cls([inh(a) for a in BASE_ATTRS], bases=["DncBase"]),
+    # a parent whose hand-written constructor stores what it is given by plain assignment, and a decorated subclass (generated constructor)
+    "HandBase": S.cls(BASE_ATTRS, extra_body=["def __init__(self, **kw):\n    for k, v in kw.items():\n        setattr(self, k, v)"]),
+    "SubOfHand": S.cls([inh(a) for a in BASE_ATTRS], bases=["HandBase"]),
     "SubPlain2": S.cls([inh(a, SET(I(4)) if a["name"] == "c" else None) for a in BASE_ATTRS] + [inh(S.attr("h", S.TL(S.TINT), "lit", L(I(5)), item="h_item"))], bases=["SubSpec"], plain=True),
 }}
 
@@ -86,7 +89,7 @@ def run_histories(job):
     rnd = random.Random(sd)
     w = World("defaults", SCN)
     out = []
-    classes = ["Base", "SubSpec", "SubPlain", "SubPlain2", "SubOfDnc"]          # (DncBase itself shares by design and is never instantiated)
+    classes = ["Base", "SubSpec", "SubPlain", "SubPlain2", "SubOfDnc", "SubOfHand"]          # (DncBase itself shares by design and is never instantiated)
     for h in range(n_hist):
         reg = Registry()
         insts, args = {}, {}
@@ -94,7 +97,7 @@ def run_histories(job):
 
         def roots():
             rs = []
-            for cname in classes + ["DncBase", "Leaf", "KLeaf"]:
+            for cname in classes + ["DncBase", "HandBase", "Leaf", "KLeaf"]:
                 for a in SCN["classes"][cname]["attrs"]:
                     v = w.classes[cname].__dict__.get(a["name"], None)
                     if a["name"] in w.classes[cname].__dict__ and not callable(v):
